@@ -2,9 +2,13 @@
 //! ReadCtxt / ReadArray, printed in the same line format the OCaml model driver produces.
 use avh::prng::{hex, unhex, Rng};
 use avh::{build_mode, harness_main, panic_kind, perr};
-use allsorts::binary::read::{ReadArray, ReadCtxt, ReadScope, ReadUnchecked};
+use allsorts::binary::read::{
+    CheckIndex, ReadArray, ReadArrayCow, ReadBinaryDep, ReadBuf, ReadCache, ReadCtxt, ReadFixedSizeDep, ReadScope,
+    ReadScopeOwned, ReadUnchecked,
+};
 use allsorts::binary::{I16Be, I32Be, I64Be, U16Be, U24Be, U32Be, U64Be, I8, U8};
 use allsorts::error::ParseError;
+use std::fmt;
 use std::panic::{catch_unwind, AssertUnwindSafe};
 
 pub trait ToVals {
@@ -77,6 +81,18 @@ macro_rules! def_arr {
         }
         fn read_array_upto<'a>(ty: &str, c: &mut ReadCtxt<'a>, n: usize) -> Result<Arr<'a>, ParseError> {
             match ty { $($s => c.read_array_upto_hack::<$t>(n).map(Arr::$v),)* _ => panic!("ty {}", ty) }
+        }
+        /// one ReadCache per element type (a ReadCache is typed by the host type it stores)
+        #[allow(non_snake_case)]
+        struct Caches { $($v: ReadCache<<$t as ReadUnchecked>::HostType>),* }
+        impl Caches {
+            fn new() -> Caches { Caches { $($v: ReadCache::new()),* } }
+        }
+        fn scope_read<'a>(ty: &str, s: &ReadScope<'a>) -> Result<Vec<i128>, ParseError> {
+            match ty { $($s => s.read::<$t>().map(|x| v(&x)),)* _ => panic!("ty {}", ty) }
+        }
+        fn scope_read_cache<'a>(ty: &str, s: &ReadScope<'a>, c: &mut Caches) -> Result<Vec<i128>, ParseError> {
+            match ty { $($s => s.read_cache::<$t>(&mut c.$v).map(|x| v(&*x)),)* _ => panic!("ty {}", ty) }
         }
         macro_rules! with_arr {
             ($arr:expr, $a:ident => $body:expr) => { match $arr { $(Arr::$v($a) => $body),* } };
@@ -172,10 +188,274 @@ where
     }
 }
 
+
+/// most items the harness pulls out of an iterator (Model/ReaderObs.v: ITER_CAP) and the longest array
+/// read_to_vec (which preallocates `len` items) is called on (VEC_CAP)
+const ITER_CAP: usize = 1000;
+const VEC_CAP: usize = 4096;
+
+/// a `fmt::Write` sink that stops the formatting once `max_items` item openers or 4 MB were written, so
+/// that a Debug impl driven by an endless iterator is observed instead of exhausting the memory
+struct CappedSink {
+    s: String,
+    items: usize,
+    max_items: usize,
+    capped: bool,
+}
+impl fmt::Write for CappedSink {
+    fn write_str(&mut self, x: &str) -> fmt::Result {
+        for ch in x.chars() {
+            if ch == '<' {
+                if self.items == self.max_items {
+                    self.capped = true;
+                    return Err(fmt::Error);
+                }
+                self.items += 1;
+            }
+            self.s.push(ch);
+        }
+        if self.s.len() > (4 << 20) {
+            self.capped = true;
+            return Err(fmt::Error);
+        }
+        Ok(())
+    }
+}
+fn debug_capped<D: fmt::Debug>(d: &D, max_items: usize) -> (String, bool, bool) {
+    use std::fmt::Write;
+    let mut sink = CappedSink { s: String::new(), items: 0, max_items, capped: false };
+    let ok = write!(sink, "{:?}", d).is_ok();
+    (sink.s, ok, sink.capped)
+}
+/// every integer of a Debug rendering, in order
+fn ints_of(s: &str) -> Vec<i128> {
+    let mut out = vec![];
+    let mut cur = String::new();
+    for ch in s.chars().chain(std::iter::once(' ')) {
+        if ch == '-' || ch.is_ascii_digit() {
+            cur.push(ch);
+        } else if !cur.is_empty() {
+            out.push(cur.parse::<i128>().unwrap());
+            cur.clear();
+        }
+    }
+    out
+}
+
+/// The dependent record of the harness: `args` lists its fields (codes of the nine primitives, possibly
+/// none), `size(args)` is the sum of their sizes and `read_dep` reads them one after the other with the
+/// checked readers — the shape of GPOS ValueRecord / BaseRecord / ComponentRecord, whose size is 0 for
+/// valueFormat = 0 / markClassCount = 0.
+#[derive(Clone, Copy, PartialEq)]
+pub struct RecItem {
+    n: usize,
+    v: [i128; 8],
+}
+impl fmt::Debug for RecItem {
+    fn fmt(&self, f: &mut fmt::Formatter<'_>) -> fmt::Result {
+        f.write_str("<")?;
+        for x in &self.v[..self.n] {
+            write!(f, "{} ", x)?;
+        }
+        f.write_str(">")
+    }
+}
+impl ToVals for RecItem {
+    fn vals(&self, out: &mut Vec<i128>) {
+        out.extend_from_slice(&self.v[..self.n]);
+    }
+}
+pub struct Rec;
+const PRIM_NAMES: [&str; 9] = ["u8", "i8", "u16", "i16", "u24", "u32", "i32", "u64", "i64"];
+const PRIM_SIZES: [usize; 9] = [1, 1, 2, 2, 3, 4, 4, 8, 8];
+impl ReadBinaryDep for Rec {
+    type Args<'a> = &'static [u8];
+    type HostType<'a> = RecItem;
+    fn read_dep<'a>(c: &mut ReadCtxt<'a>, args: &'static [u8]) -> Result<RecItem, ParseError> {
+        let mut item = RecItem { n: 0, v: [0; 8] };
+        for code in args {
+            let x = match code {
+                0 => c.read_u8()? as i128,
+                1 => c.read_i8()? as i128,
+                2 => c.read_u16be()? as i128,
+                3 => c.read_i16be()? as i128,
+                4 => c.read::<U24Be>()? as i128,
+                5 => c.read_u32be()? as i128,
+                6 => c.read_i32be()? as i128,
+                7 => c.read_u64be()? as i128,
+                _ => c.read_i64be()? as i128,
+            };
+            item.v[item.n] = x;
+            item.n += 1;
+        }
+        Ok(item)
+    }
+}
+impl ReadFixedSizeDep for Rec {
+    fn size(args: &'static [u8]) -> usize {
+        args.iter().map(|c| PRIM_SIZES[*c as usize]).sum()
+    }
+}
+/// "-" = the empty record; at most 8 fields
+fn rec_args(ty: &str) -> &'static [u8] {
+    let codes: Vec<u8> = if ty == "-" || ty.is_empty() {
+        vec![]
+    } else {
+        ty.split(',').map(|p| PRIM_NAMES.iter().position(|n| *n == p).expect("prim") as u8).collect()
+    };
+    assert!(codes.len() <= 8);
+    Box::leak(codes.into_boxed_slice())
+}
+
+fn counted<T: ToVals>(items: &[T]) -> Vec<i128> {
+    let mut o = vec![items.len() as i128];
+    for x in items {
+        x.vals(&mut o);
+    }
+    o
+}
+
+fn res_hint<I: Iterator>(mut it: I, k: usize) -> Out {
+    for _ in 0..k.min(ITER_CAP) {
+        it.next();
+    }
+    let (lo, hi) = it.size_hint();
+    if hi != Some(lo) {
+        return Out::Incons(format!("size_hint ({}, {:?})", lo, hi));
+    }
+    Out::Ok(vec![lo as i128])
+}
+
+fn dep_iter(a: &ReadArray<'_, Rec>) -> Out {
+    let items: Result<Vec<RecItem>, ParseError> = a.iter_res().take(ITER_CAP).collect();
+    match items {
+        Ok(items) => Out::Ok(counted(&items)),
+        Err(e) => Out::Err(perr(&e)),
+    }
+}
+fn dep_read_to_vec(a: &ReadArray<'_, Rec>) -> Out {
+    // read_to_vec cannot be capped from outside: look at the iterator behind it first
+    let n = a.len();
+    let seen = a.iter_res().take(VEC_CAP + 2).count();
+    if seen != n.min(VEC_CAP + 2) {
+        return Out::Incons(format!("iter_res yields {}{} items, len() is {}", if seen == VEC_CAP + 2 { ">=" } else { "" }, seen, n));
+    }
+    if n > VEC_CAP {
+        return Out::Ok(vec![-1]);
+    }
+    match a.read_to_vec() {
+        Ok(items) => Out::Ok(counted(&items)),
+        Err(e) => Out::Err(perr(&e)),
+    }
+}
+fn dep_debug(a: &ReadArray<'_, Rec>) -> Out {
+    // Debug walks iter_res to its end even after the formatter has failed: look at the iterator first
+    let n = a.len();
+    let seen = a.iter_res().take(ITER_CAP + 2).count();
+    if seen != n.min(ITER_CAP + 2) {
+        return Out::Incons(format!("iter_res yields {}{} items, len() is {}", if seen == ITER_CAP + 2 { ">=" } else { "" }, seen, n));
+    }
+    if n > ITER_CAP {
+        return Out::Ok(vec![-1]);
+    }
+    let (s, ok, capped) = debug_capped(a, ITER_CAP);
+    if !ok && !capped {
+        return Out::Err("OtherErr");
+    }
+    let items = s.matches('<').count();
+    let mut o = vec![items as i128];
+    o.extend(ints_of(&s));
+    Out::Ok(o)
+}
+fn arr_debug<'a, T: ReadUnchecked>(a: &ReadArray<'a, T>) -> Out
+where
+    T::HostType: Copy + fmt::Debug,
+{
+    // Debug walks iter_res to its end even after the formatter has failed: look at the iterator first
+    let n = a.len();
+    let seen = a.iter_res().take(n.saturating_add(2).min(1 << 20)).count();
+    if seen != n.min(1 << 20) {
+        return Out::Incons(format!("iter_res yields {} items, len() is {}", seen, n));
+    }
+    let (s, ok, capped) = debug_capped(a, usize::MAX);
+    if capped {
+        return Out::Incons(format!("Debug of an array of {} items printed more than 4 MB", a.len()));
+    }
+    if !ok {
+        return Out::Err("OtherErr");
+    }
+    Out::Ok(ints_of(&s))
+}
+fn arr_res_hint<'a, T: ReadUnchecked>(a: &ReadArray<'a, T>, k: usize) -> Out {
+    res_hint(a.iter_res(), k)
+}
+fn check_index_out<C: CheckIndex>(c: &C, i: usize) -> Out {
+    match c.check_index(i) {
+        Ok(()) => Out::Ok(vec![]),
+        Err(e) => Out::Err(perr(&e)),
+    }
+}
+/// the operations of ReadArrayCow, on Borrowed(arr.clone()) or Owned(arr.to_vec())
+fn cow_op<'a, T: ReadUnchecked + Clone>(a: &ReadArray<'a, T>, owned: bool, p: &[&str]) -> Out
+where
+    T::HostType: ToVals + Copy + fmt::Debug + PartialEq,
+{
+    let num = |s: &str| s.parse::<usize>().unwrap();
+    let cow: ReadArrayCow<'a, T> = if owned { ReadArrayCow::Owned(a.to_vec()) } else { ReadArrayCow::Borrowed(a.clone()) };
+    match p[0] {
+        "len" => {
+            if cow.is_empty() != (cow.len() == 0) {
+                return Out::Incons("is_empty".to_string());
+            }
+            Out::Ok(vec![cow.len() as i128, cow.is_empty() as i128])
+        }
+        "get" => Out::Ok(match cow.get_item(num(p[1])) {
+            None => vec![0],
+            Some(x) => {
+                let mut o = vec![1];
+                x.vals(&mut o);
+                o
+            }
+        }),
+        "ri" => match cow.read_item(num(p[1])) {
+            Ok(x) => Out::Ok(v(&x)),
+            Err(e) => Out::Err(perr(&e)),
+        },
+        "it" => {
+            let items: Vec<T::HostType> = cow.iter().take(ITER_CAP).collect();
+            let via_ref: Vec<T::HostType> = (&cow).into_iter().take(ITER_CAP).collect();
+            if items != via_ref {
+                return Out::Incons("IntoIterator for &ReadArrayCow differs from iter()".to_string());
+            }
+            if items.len() != cow.len().min(ITER_CAP) {
+                // (Debug below walks the iterator to its end: not with an iterator that does not stop)
+                return Out::Incons(format!("iter() yields {} items, len() is {}", items.len(), cow.len()));
+            }
+            let (s, ok, capped) = debug_capped(&cow, usize::MAX);
+            let flat = {
+                let mut o = vec![];
+                for x in &items {
+                    x.vals(&mut o);
+                }
+                o
+            };
+            if capped || !ok || ints_of(&s) != flat {
+                return Out::Incons("Debug of ReadArrayCow differs from iter()".to_string());
+            }
+            Out::Ok(counted(&items))
+        }
+        "hint" => res_hint(cow.iter(), num(p[1])),
+        "ci" => check_index_out(&cow, num(p[1])),
+        _ => panic!("cow op"),
+    }
+}
+
 struct St<'a> {
     scp: ReadScope<'a>,
     cur: ReadCtxt<'a>,
     arr: Arr<'a>,
+    darr: ReadArray<'a, Rec>,
+    caches: Caches,
 }
 
 fn fmt_vals(vs: &[i128]) -> String {
@@ -185,6 +465,8 @@ fn fmt_vals(vs: &[i128]) -> String {
 enum Out {
     Ok(Vec<i128>),
     Err(&'static str),
+    /// two public views of the same object disagree (judged as a violation whatever the model says)
+    Incons(String),
 }
 
 fn step<'a>(st: &mut St<'a>, op: &str) -> Out {
@@ -279,14 +561,58 @@ fn step<'a>(st: &mut St<'a>, op: &str) -> Out {
         "ahint" => Out::Ok(with_arr!(&st.arr, x => arr_size_hint(x))),
         "artv" => r(with_arr!(&st.arr, x => arr_read_to_vec(x))),
         "as" => Out::Ok(with_arr!(&st.arr, x => arr_search(x, p[1].parse::<i128>().unwrap()))),
+        "sd" => Out::Ok(st.scp.data().iter().map(|b| *b as i128).collect()),
+        "sr" => r(scope_read(p[1], &st.scp)),
+        "srd" => match st.scp.read_dep::<Rec>(rec_args(p[1])) {
+            Ok(x) => Out::Ok(v(&x)),
+            Err(e) => Out::Err(perr(&e)),
+        },
+        "rc" => r(scope_read_cache(p[1], &st.scp, &mut st.caches)),
+        "own" => {
+            let owned: &'static ReadScopeOwned = Box::leak(Box::new(ReadScopeOwned::new(st.scp)));
+            st.scp = owned.scope();
+            Out::Ok(vec![])
+        }
+        "rad" => match st.cur.read_array_dep::<Rec>(num(p[2]), rec_args(p[1])) {
+            Ok(a) => {
+                let n = a.len();
+                st.darr = a;
+                Out::Ok(vec![n as i128])
+            }
+            Err(e) => Out::Err(perr(&e)),
+        },
+        "dl" => {
+            if st.darr.is_empty() != (st.darr.len() == 0) {
+                return Out::Incons("is_empty".to_string());
+            }
+            Out::Ok(vec![st.darr.len() as i128, st.darr.is_empty() as i128])
+        }
+        "dri" => match st.darr.read_item(num(p[1])) {
+            Ok(x) => Out::Ok(v(&x)),
+            Err(e) => Out::Err(perr(&e)),
+        },
+        "dit" => dep_iter(&st.darr),
+        "drtv" => dep_read_to_vec(&st.darr),
+        "dhint" => res_hint(st.darr.iter_res(), num(p[1])),
+        "ddbg" => dep_debug(&st.darr),
+        "dci" => check_index_out(&st.darr, num(p[1])),
+        "adbg" => with_arr!(&st.arr, x => arr_debug(x)),
+        "aci" => with_arr!(&st.arr, x => check_index_out(x, num(p[1]))),
+        "arh" => with_arr!(&st.arr, x => arr_res_hint(x, num(p[1]))),
+        "cb" => with_arr!(&st.arr, x => cow_op(x, false, &p[1..])),
+        "co" => with_arr!(&st.arr, x => cow_op(x, true, &p[1..])),
         _ => panic!("op {}", op),
     }
 }
 
 /// run a program; returns the result string in the model driver's format
 pub fn run_program(buf: &[u8], ops: &[String]) -> String {
-    let scope = ReadScope::new(buf);
-    let mut st = St { scp: scope, cur: scope.ctxt(), arr: Arr::A_U8(ReadArray::empty()) };
+    // the root scope comes from ReadScope::new or from a ReadBuf (borrowed / owned), by buffer length
+    let rb: ReadBuf<'_> = if buf.len() % 3 == 2 { ReadBuf::from(buf.to_vec()) } else { ReadBuf::from(buf) };
+    let scope = if buf.len() % 3 == 0 { ReadScope::new(buf) } else { rb.scope() };
+    let darr = ReadScope::new(&[]).ctxt().read_array_dep::<Rec>(0, &[]).unwrap();
+    let mut st =
+        St { scp: scope, cur: scope.ctxt(), arr: Arr::A_U8(ReadArray::empty()), darr, caches: Caches::new() };
     let mut outs = vec![];
     for op in ops {
         // the reader has no partial effects: every failing call returns before mutating
@@ -295,23 +621,28 @@ pub fn run_program(buf: &[u8], ops: &[String]) -> String {
         let s = match res {
             Ok(Out::Ok(vs)) => format!("ok:{}", fmt_vals(&vs)),
             Ok(Out::Err(e)) => format!("err:{}", e),
+            Ok(Out::Incons(w)) => format!("incons:{}", w.replace(|c: char| c == ';' || c == '@' || c == '\t', " ")),
             Err(e) => {
                 st.cur = before;
                 panic_kind(&*e).to_string()
             }
         };
-        // the cursor offset is observable as (whole scope length) - (remaining length)
-        let off = cur_offset(&st.cur);
-        outs.push(format!("{}@{}", s, off));
+        // positions: cur.scope().data().len() @ cur.scope().base() @ scp.base() @ scp.data().len()
+        let (rem, curbase) = cur_position(&st.cur);
+        outs.push(format!("{}@{}@{}@{}@{}", s, rem, curbase, st.scp.base(), st.scp.data().len()));
     }
     outs.join(";")
 }
 
-/// what is observable of the cursor: the number of bytes left in its scope (-1 if asking panics)
-fn cur_offset(c: &ReadCtxt<'_>) -> i128 {
-    match catch_unwind(AssertUnwindSafe(|| c.scope().data().len())) {
-        Ok(n) => n as i128,
-        Err(_) => -1,
+/// what is observable of the cursor: the number of bytes left in its scope and the position of that
+/// scope (-1 if asking panics)
+fn cur_position(c: &ReadCtxt<'_>) -> (i128, i128) {
+    match catch_unwind(AssertUnwindSafe(|| {
+        let s = c.scope();
+        (s.data().len(), s.base())
+    })) {
+        Ok((n, b)) => (n as i128, b as i128),
+        Err(_) => (-1, -1),
     }
 }
 
@@ -329,6 +660,237 @@ fn arg(rng: &mut Rng, len: usize) -> u64 {
         6 | 7 => *rng.pick(BOUNDARY),
         8 => rng.below(12),
         _ => rng.next() >> rng.below(64),
+    }
+}
+
+const PRIMS: [&str; 9] = ["u8", "i8", "u16", "i16", "u24", "u32", "i32", "u64", "i64"];
+
+/// a dependent record type: no field at all (size 0) on purpose about a third of the time
+fn gen_rec(rng: &mut Rng) -> String {
+    let nf = match rng.below(9) {
+        0..=2 => 0,
+        3 | 4 => 1,
+        5 | 6 => 2,
+        7 => 3,
+        _ => 1 + rng.below(8) as usize,
+    };
+    if nf == 0 {
+        return "-".to_string();
+    }
+    let small = rng.chance(2, 3);
+    (0..nf)
+        .map(|_| if small { *rng.pick(&["u8", "i8", "u16", "i16"]) } else { *rng.pick(&PRIMS) })
+        .collect::<Vec<_>>()
+        .join(",")
+}
+fn rec_size(t: &str) -> usize {
+    if t == "-" {
+        0
+    } else {
+        t.split(',').map(|p| PRIM_SIZES[PRIM_NAMES.iter().position(|n| *n == p).unwrap()]).sum()
+    }
+}
+
+/// an index / count around `n`: inside, the last one, the first one outside, far outside
+fn around(rng: &mut Rng, n: u64) -> u64 {
+    match rng.below(8) {
+        0..=2 => rng.below(n.saturating_add(1)),
+        3 => n.saturating_sub(1),
+        4 => n,
+        5 => n.saturating_add(1),
+        6 => *rng.pick(BOUNDARY),
+        _ => rng.below(12),
+    }
+}
+
+/// one operation of the general mix
+fn gen_op(rng: &mut Rng, len: usize) -> String {
+    let ty = *rng.pick(TYPES);
+    let prim = *rng.pick(&PRIMS);
+    match rng.below(62) {
+        0 => format!("so:{}", arg(rng, len)),
+        1 | 2 => format!("sol:{}:{}", arg(rng, len), arg(rng, len)),
+        3 | 4 => "ctxt".to_string(),
+        5 => "cs".to_string(),
+        6 => "ba".to_string(),
+        7..=11 => format!("r:{}", prim),
+        12..=14 => format!("rt:{}", ty),
+        15 => format!("rs:{}", arg(rng, len)),
+        16 => format!("sl:{}", arg(rng, len)),
+        17 => format!("nib:{}", rng.below(17)),
+        18..=20 => format!("ra:{}:{}", ty, arg(rng, len / 2)),
+        21..=23 => format!("ras:{}:{}:{}", ty, arg(rng, len / 4), arg(rng, 8)),
+        24 => format!("rau:{}:{}", ty, arg(rng, len)),
+        25 => "al".to_string(),
+        26..=28 => format!("ag:{}", arg(rng, 6)),
+        29 | 30 => format!("ari:{}", arg(rng, 6)),
+        31 => "alast".to_string(),
+        32 | 33 => "avec".to_string(),
+        34 => "ahint".to_string(),
+        35 | 36 => "artv".to_string(),
+        37..=39 => format!("as:{}", rng.range(-3, 260)),
+        40 => "sd".to_string(),
+        41 | 42 => format!("sr:{}", ty),
+        43 => format!("srd:{}", gen_rec(rng)),
+        44..=46 => format!("rc:{}", ty),
+        47 => "own".to_string(),
+        48 | 49 => format!("rad:{}:{}", gen_rec(rng), arg(rng, len / 3)),
+        50 => "dl".to_string(),
+        51 => format!("dri:{}", arg(rng, 6)),
+        52 => "dit".to_string(),
+        53 => "drtv".to_string(),
+        54 => format!("dhint:{}", arg(rng, 6)),
+        55 => "ddbg".to_string(),
+        56 => format!("dci:{}", arg(rng, 6)),
+        57 => "adbg".to_string(),
+        58 => format!("aci:{}", arg(rng, 6)),
+        59 => format!("arh:{}", arg(rng, 6)),
+        _ => gen_cow(rng, 6),
+    }
+}
+
+fn gen_cow(rng: &mut Rng, n: u64) -> String {
+    let which = if rng.chance(1, 2) { "cb" } else { "co" };
+    match rng.below(7) {
+        0 => format!("{}:len", which),
+        1 | 2 => format!("{}:get:{}", which, around(rng, n)),
+        3 => format!("{}:ri:{}", which, around(rng, n)),
+        4 => format!("{}:it", which),
+        5 => format!("{}:hint:{}", which, around(rng, n)),
+        _ => format!("{}:ci:{}", which, around(rng, n)),
+    }
+}
+
+/// Scopes are moved around (in range, to the very end, past the end, by usize-extreme amounts, through
+/// the cursor, through ReadScopeOwned) and after every move the same few types are read through the
+/// cache, directly and through a cursor: a position (ReadScope::base) that does not follow the moves
+/// shows in the positions printed after every step and in cached reads that return a stale value.
+fn gen_positions(rng: &mut Rng, len: usize, ops: &mut Vec<String>) {
+    let tys: Vec<&str> = (0..1 + rng.below(2)).map(|_| *rng.pick(&["u8", "u16", "i16", "u32", "u16,u16", "u24", "u64"])).collect();
+    let mut cur_len = len as u64; // what the scope variable spans if every move so far was in range
+    let steps = 2 + rng.below(6);
+    for _ in 0..steps {
+        let ty = *rng.pick(&tys);
+        match rng.below(6) {
+            0..=2 => ops.push(format!("rc:{}", ty)),
+            3 => ops.push(format!("sr:{}", ty)),
+            4 => {
+                ops.push("ctxt".to_string());
+                ops.push(format!("rt:{}", ty));
+            }
+            _ => ops.push("sd".to_string()),
+        }
+        // the move
+        match rng.below(12) {
+            0..=2 => {
+                // inside
+                let k = rng.below(cur_len + 1);
+                ops.push(format!("so:{}", k));
+                cur_len -= k;
+            }
+            3 => ops.push(format!("so:{}", cur_len)), // exactly the end: an empty, but not dangling, scope
+            4 | 5 => {
+                // past the end: a dangling scope
+                let k = cur_len + 1 + rng.below(4) * rng.below(40);
+                ops.push(format!("so:{}", k));
+                cur_len = 0;
+            }
+            6 => ops.push(format!("so:{}", pick_extreme(rng))),
+            7 => {
+                let o = around(rng, cur_len);
+                let l = if rng.chance(1, 3) { 0 } else { around(rng, cur_len.saturating_sub(o.min(cur_len))) };
+                ops.push(format!("sol:{}:{}", o, l));
+                if o <= cur_len && l <= cur_len - o {
+                    cur_len = l;
+                }
+            }
+            8 => {
+                ops.push("ctxt".to_string());
+                ops.push(format!("r:{}", *rng.pick(&PRIMS)));
+                ops.push("cs".to_string());
+            }
+            9 => ops.push("own".to_string()),
+            10 => {
+                ops.push("ctxt".to_string());
+                ops.push(format!("rs:{}", around(rng, cur_len)));
+            }
+            _ => {}
+        }
+        if rng.chance(1, 2) {
+            ops.push(format!("rc:{}", ty));
+        }
+    }
+}
+
+fn pick_extreme(rng: &mut Rng) -> u64 {
+    *rng.pick(&[u64::MAX, u64::MAX - 1, u64::MAX - 3, 1 << 63, (1 << 63) + 2, 1 << 32, (1 << 32) + 1, u64::MAX / 2])
+}
+
+/// A dependent array is read (records of 0 to 8 fields; declared lengths 0, 1, few, exactly what fits,
+/// one more than fits, huge) and then looked at through every public view: len/is_empty, read_item and
+/// check_index around the length, iter_res (capped), read_to_vec, size_hint after k items, Debug.
+fn gen_dep(rng: &mut Rng, len: usize, ops: &mut Vec<String>) {
+    if rng.chance(1, 3) {
+        ops.push(format!("sl:{}", rng.below(len as u64 / 2 + 1)));
+    }
+    let rounds = 1 + rng.below(2);
+    for _ in 0..rounds {
+        let t = gen_rec(rng);
+        let sz = rec_size(&t) as u64;
+        let fits = if sz == 0 { 4 + rng.below(6) } else { len as u64 / sz };
+        let n = match rng.below(10) {
+            0 => 0,
+            1 => 1,
+            2..=4 => rng.below(7),
+            5 | 6 => fits,
+            7 => fits + 1,
+            8 => rng.below(fits + 1),
+            _ => {
+                if sz == 0 && rng.chance(1, 2) {
+                    *rng.pick(&[999, 1000, 1001, 4096, 4097, 65535, 1 << 20])
+                } else {
+                    *rng.pick(BOUNDARY)
+                }
+            }
+        };
+        ops.push(format!("rad:{}:{}", t, n));
+        let looks = 2 + rng.below(7);
+        for _ in 0..looks {
+            ops.push(match rng.below(12) {
+                0 => "dl".to_string(),
+                1 | 2 => "dit".to_string(),
+                3 | 4 => format!("dri:{}", around(rng, n)),
+                5 | 6 => "drtv".to_string(),
+                7 => format!("dhint:{}", around(rng, n)),
+                8 | 9 => "ddbg".to_string(),
+                10 => format!("dci:{}", around(rng, n)),
+                _ => format!("r:{}", *rng.pick(&PRIMS)), // the cursor moved by exactly n * size
+            });
+        }
+        if rng.chance(1, 3) {
+            ops.push(format!("srd:{}", t));
+        }
+    }
+}
+
+/// an array (plain or strided) looked at through ReadArrayCow (borrowed and owned), CheckIndex, Debug
+/// and the size_hint of iter_res
+fn gen_cow_scenario(rng: &mut Rng, len: usize, ops: &mut Vec<String>) {
+    let ty = *rng.pick(TYPES);
+    let n = rng.below(len as u64 / 2 + 2);
+    if rng.chance(1, 2) {
+        ops.push(format!("ra:{}:{}", ty, n));
+    } else {
+        ops.push(format!("ras:{}:{}:{}", ty, rng.below(len as u64 / 4 + 2), arg(rng, 8)));
+    }
+    ops.push("al".to_string());
+    for _ in 0..2 + rng.below(6) {
+        ops.push(match rng.below(8) {
+            0..=4 => gen_cow(rng, n),
+            5 => "adbg".to_string(),
+            6 => format!("aci:{}", around(rng, n)),
+            _ => format!("arh:{}", around(rng, n)),
+        });
     }
 }
 
@@ -350,35 +912,19 @@ pub fn gen_program(rng: &mut Rng) -> (Vec<u8>, Vec<String>) {
             *b = *rng.pick(&[0u8, 0xff, 0x80, 0x7f, 0x0f, 0xf0]);
         }
     }
-    let nops = 1 + rng.below(24) as usize;
     let mut ops = vec![];
+    // a structured part (positions and cache / dependent arrays / cow views) in half of the programs,
+    // then the general mix
+    let scenario = rng.below(10);
+    match scenario {
+        0 | 1 => gen_positions(rng, len, &mut ops),
+        2 | 3 => gen_dep(rng, len, &mut ops),
+        4 => gen_cow_scenario(rng, len, &mut ops),
+        _ => {}
+    }
+    let nops = if scenario <= 4 { rng.below(8) as usize } else { 1 + rng.below(24) as usize };
     for _ in 0..nops {
-        let ty = *rng.pick(TYPES);
-        let prim = *rng.pick(&["u8", "i8", "u16", "i16", "u24", "u32", "i32", "u64", "i64"]);
-        let op = match rng.below(40) {
-            0 => format!("so:{}", arg(rng, len)),
-            1 | 2 => format!("sol:{}:{}", arg(rng, len), arg(rng, len)),
-            3 | 4 => "ctxt".to_string(),
-            5 => "cs".to_string(),
-            6 => "ba".to_string(),
-            7..=11 => format!("r:{}", prim),
-            12..=14 => format!("rt:{}", ty),
-            15 => format!("rs:{}", arg(rng, len)),
-            16 => format!("sl:{}", arg(rng, len)),
-            17 => format!("nib:{}", rng.below(17)),
-            18..=20 => format!("ra:{}:{}", ty, arg(rng, len / 2)),
-            21..=23 => format!("ras:{}:{}:{}", ty, arg(rng, len / 4), arg(rng, 8)),
-            24 => format!("rau:{}:{}", ty, arg(rng, len)),
-            25 => "al".to_string(),
-            26..=28 => format!("ag:{}", arg(rng, 6)),
-            29 | 30 => format!("ari:{}", arg(rng, 6)),
-            31 => "alast".to_string(),
-            32 | 33 => "avec".to_string(),
-            34 => "ahint".to_string(),
-            35 | 36 => "artv".to_string(),
-            _ => format!("as:{}", rng.range(-3, 260)),
-        };
-        ops.push(op);
+        ops.push(gen_op(rng, len));
     }
     (buf, ops)
 }
